@@ -11,16 +11,22 @@ from ..core import Broken, Ctx, Violation
 PROP_FILE = "Properties/C05.v"
 
 TRUSTED = [
-    "no translator: Model/ParamSpace.v is hand-written and tied to pyxel/observation/{misc,observation,"
-    "parameter_values}.py and pyxel/evaluator.py only by the correspondence leg (testing)",
-    "correspondence harness: harness/props/c05.py generators, harness/drivers/c05.py (DataTree dump via .isel/.sel), "
-    "probes/verif_probes_c05.py (records received values, writes their base-64 code into pixel)",
+    "translator/c05.py: what it reads from pyxel/observation/{misc,observation}.py is believed (name fallback and third "
+    "naming stage, enabled_steps filters, short(), CustomMode.build guards and column selection, convert_custom_data "
+    "column addressing and scalar test, the dimensions _add_custom_parameters gives a vector parameter); it fails closed "
+    "on any other shape",
+    "the loops of the three modes (itertools.product / the sequential double loop / the column cursor) and of the dask "
+    "path (create_params, run_pipelines_with_dask) are hand-written in Model/ParamSpace.v and tied to the code only by "
+    "the correspondence leg (testing)",
+    "correspondence harness: harness/props/c05.py generators, harness/drivers/c05.py (DataTree dump via .isel/.sel, "
+    "dask path under the synchronous scheduler), probes/verif_probes_c05.py (records received values, writes their "
+    "base-64 code into pixel)",
     "modelled, not verified: itertools.product / zip / dict insertion order (= iproduct / combine / dict_set), "
-    "toolz.unique, pandas DataFrame.loc label slicing and iterrows, xarray expand_dims / assign_coords / merge "
-    "(= labelled entries merged when equal), numpy expression strings evaluated by eval_range (the model receives "
-    "the list the harness rendered the expression from)",
-    "rendering of dimension names as strings (Short s -> s, WithModel m p -> m.p) is injective on dot-free "
-    "components: used, not proved in Coq",
+    "toolz.unique, pandas DataFrame.loc label slicing, iterrows, MultiIndex.from_product + Series.to_xarray (= a "
+    "permutation of every level; proved irrelevant for the label->data map), xarray expand_dims / assign_coords / merge "
+    "(= labelled entries merged when equal), xarray.apply_ufunc over a chunked object array (= one run per cell, stored "
+    "in that cell), numpy expression strings evaluated by eval_range (the model receives the list the harness rendered "
+    "the expression from)",
 ]
 
 P1 = "pipeline.charge_collection.{m}.arguments."
@@ -114,7 +120,7 @@ def _order(r, vals, style):
     return vals
 
 
-def gen_values(r, s, style=None, nodup=False):
+def gen_values(r, s, style=None, nodup=False, fine=False):
     """A list of 1..4 values for the slot, and how it is written (literal list / numpy expression).
     style: None | "desc" | "unsorted" (see _order); nodup: no value twice."""
     n = r.choice([1, 1, 2, 2, 3, 3, 4]) if style is None else r.choice([2, 3, 3, 4])
@@ -131,6 +137,9 @@ def gen_values(r, s, style=None, nodup=False):
     how = r.choice(["list", "list", "ints", "array", "arange", "linspace"])
     if s.get("neg") and how in ("arange", "linspace"):
         how = "array"
+    if fine and how in ("ints", "arange"):
+        how = "array"               # fine values (0.5 + n / 2**30) are never integral
+    fl = (lambda e: repr(0.5 + e / 2.0 ** 30)) if fine else (lambda e: repr(e / 8.0))
     if how in ("arange", "linspace"):
         unit = 8 if how == "arange" else r.choice([1, 2, 4])
         step = unit * r.randrange(1, 3)
@@ -149,11 +158,11 @@ def gen_values(r, s, style=None, nodup=False):
                 if how == "arange":
                     p["expr"] = f"numpy.arange({vals[0] // 8}, {start // 8 - 1}, {-(step // 8)})"
                 else:
-                    p["expr"] = f"numpy.linspace({vals[0] / 8.0!r}, {vals[-1] / 8.0!r}, {n})"
+                    p["expr"] = f"numpy.linspace({fl(vals[0])}, {fl(vals[-1])}, {n})"
             elif how == "arange":
                 p["expr"] = f"numpy.arange({start // 8}, {(start + n * step) // 8}, {step // 8})"
             else:
-                p["expr"] = f"numpy.linspace({start / 8.0!r}, {vals[-1] / 8.0!r}, {n})"
+                p["expr"] = f"numpy.linspace({fl(start)}, {fl(vals[-1])}, {n})"
             p["values"] = vals
             return p
     vals = [rand_val(r, s, integral=(how == "ints")) for _ in range(n)]
@@ -166,14 +175,15 @@ def gen_values(r, s, style=None, nodup=False):
     if how == "ints":
         p["ints"] = True
     elif how == "array":
-        if all(v % 8 == 0 for v in vals) and r.random() < 0.5:
+        if all(v % 8 == 0 for v in vals) and r.random() < 0.5 and not fine:
             p["expr"] = "numpy.array([" + ", ".join(str(v // 8) for v in vals) + "])"
         else:
-            p["expr"] = "numpy.array([" + ", ".join(repr(v / 8.0) for v in vals) + "])"
+            p["expr"] = "numpy.array([" + ", ".join(fl(v) for v in vals) + "])"
     return p
 
 
-def gen_case(r, mode=None, lay=None, kind="valid", dask=False, style=None, nodup=None, neg=None, nparams=None):
+def gen_case(r, mode=None, lay=None, kind="valid", dask=False, style=None, nodup=None, neg=None, nparams=None,
+             fine=None):
     """dask: run on the dask path; style: order of the value lists (None | "desc" | "unsorted" | "mixed" = drawn
     per parameter); nodup: no value twice in a list; neg: model arguments may be negative."""
     mode = mode or r.choice(["product", "product", "sequential", "sequential", "custom", "custom"])
@@ -181,6 +191,8 @@ def gen_case(r, mode=None, lay=None, kind="valid", dask=False, style=None, nodup
     probes, slots = layout(lay)
     if neg is None:
         neg = r.random() < 0.3
+    if fine is None:
+        fine = r.random() < 0.15    # values 0.5 + n / 2**30 (31 significant bits) instead of n / 8
     if nodup is None:
         nodup = dask and r.random() < 0.85
     for s in slots:
@@ -222,10 +234,10 @@ def gen_case(r, mode=None, lay=None, kind="valid", dask=False, style=None, nodup
             else:
                 p = dict(kind="unders", n=s["vlen"])
             if kind == "literal_in_custom" and r.random() < 0.5:
-                p = gen_values(r, s)
+                p = gen_values(r, s, fine=fine)
         else:
             st = r.choice([None, "desc", "unsorted", "unsorted"]) if style == "mixed" else style
-            p = gen_values(r, s, style=st, nodup=nodup)
+            p = gen_values(r, s, style=st, nodup=nodup, fine=fine)
             if kind == "placeholder_in_noncustom" and r.random() < 0.5:
                 p = dict(kind="under") if s["vlen"] == 0 else dict(kind="unders", n=s["vlen"])
         p.update(key=s["key"], enabled=en, slot=i)
@@ -233,7 +245,7 @@ def gen_case(r, mode=None, lay=None, kind="valid", dask=False, style=None, nodup
     if mode == "sequential" and r.random() < 0.12 and params and params[0]["kind"] == "lit":
         # the same key swept twice is allowed in sequential mode
         s = slots[params[0]["slot"]]
-        p = gen_values(r, s)
+        p = gen_values(r, s, fine=fine)
         p.update(key=s["key"], enabled=True, slot=params[0]["slot"])
         params.append(p)
     if not any(p["enabled"] for p in params) or r.random() < 0.5:
@@ -251,7 +263,8 @@ def gen_case(r, mode=None, lay=None, kind="valid", dask=False, style=None, nodup
                     p["values"] = p["values"][:-1]
                     p.pop("expr", None)
                 tot *= len(p["values"])
-    case = dict(mode=mode, layout=lay, probes=probes, params=params, dask=bool(dask),
+    case = dict(mode=mode, layout=lay, probes=probes, params=params, dask=bool(dask), fine=bool(fine),
+                inherit=bool(dask or r.random() >= 0.12),        # with_inherited_coords (the dask path requires True)
                 slots=[dict(key=s["key"], default=s["default"]) for s in slots], table=[], range=None, file="npy")
     if mode == "custom":
         widths = []
@@ -289,12 +302,14 @@ def gen_case(r, mode=None, lay=None, kind="valid", dask=False, style=None, nodup
         case["range"] = [extra_l, extra_l + ncols - 1] if ncols > 0 else [extra_l, extra_l]
         if kind == "no_range":
             case["range"] = None
-        case["file"] = "txt" if (len(table[0]) >= 2 and r.random() < 0.3) else "npy"
+        # text tables only for n/8 values: pandas' default float parser is not correctly rounded for 17-digit decimals
+        # (reading files faithfully is C20's subject)
+        case["file"] = "txt" if (len(table[0]) >= 2 and r.random() < 0.3 and not fine) else "npy"
     return case
 
 
 def canon(case):
-    return json.dumps({k: case.get(k) for k in ("mode", "layout", "params", "slots", "table", "range", "dask")},
+    return json.dumps({k: case.get(k) for k in ("mode", "layout", "params", "slots", "table", "range", "dask", "inherit", "fine")},
                       sort_keys=True)
 
 
@@ -323,6 +338,36 @@ def gen_dask_case(r, mode=None):
     lay = r.choices(["L1", "L3", "L4", "L2", "L5"], [10, 4, 2, 1, 1])[0]
     style = r.choice(["unsorted", "unsorted", "desc", "mixed", None])
     return gen_case(r, mode, lay, dask=True, style=style, neg=r.random() < 0.5)
+
+
+def enum_cases(r):
+    """Thorough tier: exhaustive small scope on both paths -- every order of a 3-value scalar list against every order
+    of a 2- or 3-value list of a second parameter (scalar or vector valued), product mode; every order of a 3-value
+    list, sequential mode (one parameter); every order of 3 table rows, custom mode."""
+    import itertools
+    out = []
+    base = gen_case(r, "product", "L1", nparams=1, neg=False, fine=False, dask=False)
+    slots = {s["key"]: i for i, s in enumerate(base["slots"])}
+    ka, kb, kw = P1.format(m="m1") + "a", P2.format(m="m2") + "b", P2.format(m="m2") + "w"
+
+    def case(mode, params, dask, table=None, rng=None):
+        c = json.loads(json.dumps(base))
+        c.update(mode=mode, dask=dask, inherit=True, table=table or [], range=rng,
+                 params=[dict(p, enabled=True, slot=slots[p["key"]]) for p in params])
+        return c
+
+    for dask in (False, True):
+        for pa in itertools.permutations([8, 16, 24]):
+            for second in ([40, 48], [[8, 16], [4, 2], [4, 40]]):
+                key2 = kb if not isinstance(second[0], list) else kw
+                for pb in itertools.permutations(second):
+                    out.append(case("product", [dict(kind="lit", key=ka, values=list(pa)),
+                                                dict(kind="lit", key=key2, values=[v for v in pb])], dask))
+            out.append(case("sequential", [dict(kind="lit", key=ka, values=list(pa))], dask))
+        for rows in itertools.permutations([[8, 40, 9], [16, 20, 30], [24, 8, 16]]):
+            out.append(case("custom", [dict(kind="under", key=ka), dict(kind="unders", n=2, key=kw)], dask,
+                            table=[list(x) for x in rows], rng=[0, 2]))
+    return out
 
 
 def gen_cases(ctx: Ctx, budget: int, dask_budget: int):
@@ -383,7 +428,9 @@ def gen_cases(ctx: Ctx, budget: int, dask_budget: int):
             dcases.append(gen_case(rd, rd.choice(["product", "sequential"]), kind="placeholder_in_noncustom", dask=True))
         else:
             dcases.append(gen_dask_case(rd))
-    return cases + dcases
+    extra = [] if ctx.quick else enum_cases(ctx.rng("enum"))
+    ctx.cov["exhaustive_small_scope_cases"] = len(extra)
+    return cases + dcases + extra
 
 
 # ------------------------------------------------------------------------------------------ Coq emission
@@ -516,9 +563,12 @@ def to_violation(c, o, explained=True) -> Violation:
     what = (f"{c['mode']} observation{' (with_dask=True)' if c.get('dask') else ''} over "
             f"{[p['key'] for p in en]}: {clause}"
             + (f" ({o['raised']}: {o.get('msg', '')[:120]})" if o.get("raised") else ""))
-    return Violation(clause=clause, case=c, observed=dict(raised=o["raised"], runs=o["runs"], result=o["result"][:40]),
-                     expected="exactly the requested runs in order, each found under its own labels with its own data "
-                              "(spec_holds in Model/ParamSpace.v)", what=what, sig=sig)
+    v = Violation(clause=clause, case=c, observed=dict(raised=o["raised"], runs=o["runs"], result=o["result"][:40]),
+                  expected="exactly the requested runs (in order; on the dask path as a multiset), each found under its "
+                           "own labels with its own data, nothing else stored (spec_holds in Model/ParamSpace.v)",
+                  what=what, sig=sig)
+    v.full_obs = o
+    return v
 
 
 # ------------------------------------------------------------------------------------------ legs
@@ -564,12 +614,74 @@ def correspondence(ctx: Ctx, cases, tag="c"):
         ctx.count("observations")
         ctx.dist("mode", c["mode"] + ("/dask" if c.get("dask") else ""))
         ctx.dist("layout", c["layout"])
+        ctx.dist("with_inherited_coords", bool(c.get("inherit", True)))
+        ctx.dist("value_unit", "0.5+n/2^30" if c.get("fine") else "n/8")
         ctx.dist("enabled_params", sum(1 for p in c["params"] if p["enabled"]))
         ctx.dist("runs", len(o["runs"]))
         ctx.dist("outcome", o["raised"] or "ok")
         for p in c["params"]:
             ctx.dist("values_written_as", "expr:" + p["expr"].split("(")[0] if p.get("expr") else p["kind"])
     return mism, viol, pairs
+
+
+def _size(c):
+    return (sum(1 for p in c["params"]), sum(len(p.get("values", [])) for p in c["params"]), len(c["table"]),
+            sum(1 for p in c["params"] if p.get("expr")))
+
+
+def _reductions(c):
+    """One-step reductions of a case that keep it well-formed."""
+    import copy
+    out = []
+    ps = c["params"]
+    for k, p in enumerate(ps):
+        lit_or_off = p["kind"] == "lit" or not p["enabled"]
+        if len(ps) > 1 and (c["mode"] != "custom" or not p["enabled"]):
+            d = copy.deepcopy(c)
+            del d["params"][k]
+            if any(q["enabled"] for q in d["params"]):
+                out.append(d)
+        if p["kind"] == "lit" and p.get("expr"):
+            d = copy.deepcopy(c)
+            d["params"][k].pop("expr")
+            out.append(d)
+        if p["kind"] == "lit" and not p.get("expr") and len(p["values"]) > 1 and lit_or_off:
+            for j in range(len(p["values"])):
+                d = copy.deepcopy(c)
+                del d["params"][k]["values"][j]
+                out.append(d)
+    if c["mode"] == "custom" and len(c["table"]) > 1:
+        for j in range(len(c["table"])):
+            d = copy.deepcopy(c)
+            del d["table"][j]
+            out.append(d)
+    return out
+
+
+def shrink(ctx: Ctx, c, o, explained, rounds=8):
+    """Greedy shrinking of a violating case: keep a one-step reduction that still violates the specification
+    (judged in Coq) with the same classification; stop when none does."""
+    clause = classify(c, o, explained)
+    for rnd in range(rounds):
+        cands = _reductions(c)
+        if not cands:
+            break
+        cands.sort(key=_size)
+        cands = cands[:24]
+        obs = core.run_driver(ctx, "c05", cands, workers=4, chunk=6)
+        pairs = [(d, b) for d, b in zip(cands, obs) if "crash" not in b and "driver_error" not in b]
+        if not pairs:
+            break
+        ok, evals, se = core.coq_eval(ctx, f"shrink_{rnd}", emit_file(pairs))
+        if not ok or len(evals) != 2:
+            break
+        mism = set(core.parse_int_list(evals[0]))
+        keep = [(pairs[i][0], pairs[i][1], i not in mism) for i in core.parse_int_list(evals[1])]
+        keep = [(d, b, e) for d, b, e in keep if classify(d, b, e) == clause and e == explained]
+        if not keep:
+            break
+        c, o, explained = min(keep, key=lambda t: _size(t[0]))
+    return c, o, explained
 
 
 def new_violations(ctx: Ctx):
@@ -580,10 +692,14 @@ def new_violations(ctx: Ctx):
 def run(ctx: Ctx):
     ctx.trusted += TRUSTED
     ctx.assumptions += [
-        "sequential (with_dask=False) path only; the dask path belongs to C07",
-        "swept keys exist and their models are enabled (key resolution is C08); one readout time; values are "
-        "multiples of 1/8 in [0, 8); every vector-valued setting keeps its length; custom tables have 1..6 rows",
+        "both paths of Observation.run_pipelines: with_dask=False, and with_dask=True under the synchronous scheduler "
+        "(other schedulers, output files and seeding under dask belong to C07)",
+        "swept keys exist and their models are enabled (key resolution is C08); one readout time; values are multiples "
+        "of 1/8, detector fields in [0, 8), model arguments in (-4, 8); every vector-valued setting keeps its length; "
+        "custom tables have 1..6 rows",
         "product/custom requests have distinct enabled keys (a repeated key is only meaningful in sequential mode)",
+        "on the dask path the executed runs are compared as a multiset and ONE further execution of a requested run is "
+        "allowed (run_pipelines_with_dask runs the first cell once more to learn the output shape)",
     ]
     try:
         gen = {"Gen_C05.v": tr.translate(ctx.repo)}
@@ -616,6 +732,23 @@ def run(ctx: Ctx):
     for v in vs:
         (rest if v.clause in seen else first).append(v)
         seen.add(v.clause)
+    # shrink what will be reported as new (not what matches a recorded defect): one case per signature
+    fs = core.load_findings(ctx.prop)
+    done = set()
+    for k, v in enumerate(first + rest):
+        key = json.dumps(v.sig, sort_keys=True)
+        if key in done or len(done) >= 5 or any(core.finding_matches(e, v) for e in fs):
+            continue
+        done.add(key)
+        try:
+            c2, o2, e2 = shrink(ctx, v.case, v.full_obs, id(v.case) not in unexplained)
+            if c2 is not v.case:
+                w = to_violation(c2, o2, e2)
+                if w.sig == v.sig:
+                    (first if k < len(first) else rest)[k if k < len(first) else k - len(first)] = w
+                    ctx.count("shrunk_cases")
+        except Exception as ex:  # noqa: BLE001 -- shrinking is best effort, the unshrunk case is still reported
+            ctx.log(f"shrinking failed: {type(ex).__name__}: {ex}")
     ctx.violations += first + rest
     (ctx.build / "mismatches.json").write_text(json.dumps([dict(case=c, observed=o) for c, o in mism], indent=1))
     for c, o in mism:
@@ -671,20 +804,27 @@ def replay(ctx: Ctx, rp: dict) -> int:
 META = dict(
     level_text=(
         "Coq theorems, for any number of parameters and any list lengths, over an executable model of ProductMode / "
-        "SequentialMode / CustomMode and of the short-dimension-name rule: the product run list is the row-major "
-        "Cartesian product (count, distinct and exhaustive index tuples, run n = mixed-radix digits of n, index i_k "
-        "carries element i_k of list k), sequential runs are the configured defaults with one key replaced at a time, "
-        "custom runs consume columns at prefix-sum offsets and are refused exactly on a width/column mismatch, disabled "
-        "parameters never contribute, and two dimension names coincide exactly when model name and argument name "
-        "coincide (the full injectivity statement is refuted with a witness). That the model is what the code does, "
-        "and that the returned DataTree stores each run's data under that run's labels, is established by "
-        "correspondence (testing): real non-dask observations with a probe model that records what each run received; "
-        "ordered run list and complete label->data map compared and judged inside Coq."),
+        "SequentialMode / CustomMode, of the dimension-name rule as read from the source by a translator, of the "
+        "coordinate attachment and of the merge: the product run list is the row-major Cartesian product (count, distinct "
+        "and exhaustive index tuples, run n = mixed-radix digits of n, index i_k carries element i_k of list k), sequential "
+        "runs are the configured defaults with one key replaced at a time, custom runs consume columns at prefix-sum "
+        "offsets and are refused exactly on a width/column mismatch, disabled parameters never contribute; distinct swept "
+        "keys get distinct, defined dimension names (as strings); after the merge every run is found under its own labels "
+        "with its own data, nothing else is stored, and the merge fails exactly on equal labels with different data; for "
+        "each mode the modelled observation as a whole runs and maps each run's labels to that run's data. Dask path: for "
+        "every reordering of the levels the product cells are the requested runs, each once, each found under the label "
+        "made of exactly its values; custom cells take the requested columns; sequential mode is refuted beyond one "
+        "parameter and duplicate values are refused (open findings, full statements kept visible). That the hand-written "
+        "loops of the model are what the code does, and that the returned DataTree stores each run's data under that "
+        "run's labels, is established by correspondence (testing): real observations on both paths with a probe model "
+        "that records what each run received; run list and complete label->data map compared and judged inside Coq."),
     level_note=(
-        "Trusted: Coq kernel + vm_compute; the hand-written model (no translator); the harness, driver and probe; "
-        "itertools/zip/dict/pandas/xarray semantics as modelled. Not proved in Coq: lookup-after-merge (C05_lookup of "
-        "the design) and injectivity of rendering names to strings; both are covered by the correspondence only. "
-        "Assumes existing keys, enabled models, one readout time, fixed vector lengths, distinct keys in product/custom."),
-    technique="Coq proof over an executable Gallina model + in-Coq correspondence/specification evaluation on real observations",
+        "Trusted: Coq kernel + vm_compute; the translator (declarative parts only, fail-closed) and the hand-written model "
+        "of the loops; the harness, driver and probe; itertools/zip/dict/pandas/xarray/dask semantics as modelled. The "
+        "theorems about the whole observation are about the model; the tie to the implementation is testing. Assumes "
+        "existing keys, enabled models, one readout time, fixed vector lengths, distinct keys in product/custom; dask "
+        "only under the synchronous scheduler (C07 covers schedulers)."),
+    technique="Coq proof over an executable Gallina model + source translator + in-Coq correspondence/specification "
+              "evaluation on real observations (non-dask and dask path)",
     design_ref="DESIGN.md section 6, C05",
 )
